@@ -1540,6 +1540,7 @@ def f_denominator(c):
         k.extra_roots = [ctor]
         k.denom = {'t': t, 'vec': vec, 'ctor': ctor, 'dct': c.P[1]['ctype'], 'nct': t.ct, 'pn': (c.P[0]['name'], c.P[1]['name'])}
         k.S = S
+        k.fn_code = fn.get('code') or ''
         if t.bits > 8 or t.W > 1:
             k.partial = 'one obligation per divisor d of the lattice {%s} (mod 2^%d)%s; all numerators' % (
                 ', '.join(str(v) for v in denom_lattice(t)), t.bits, ', every lane dividing by d, plus one obligation with a different lattice divisor in every lane' if vec else '')
@@ -1710,6 +1711,12 @@ def denom_variants(k, tier):
         pn, pd = d['pn']
         g.requires = ['((%s).d == 1 || (%s).sh2 < %d)' % (pd, pd, b)]
         g.ensures = [('div evaluates the Granlund-Montgomery expression', 'spec_gm_div_u%d_ok((%s).quot, (%s).rem, %s, (%s).m, (%s).sh2, (%s).d)' % (b, RV, RV, pn, pd, pd, pd))]
+        if b == 64 and 'AVM_MUL_u128' not in (getattr(k, 'fn_code', '') or ''):
+            # portable branch (no __uint128_t product in the extracted text): the high half comes from four 32 x 32 partial
+            # products; contract against the schoolbook formula (lemma L6)
+            g.ensures = [('div evaluates the Granlund-Montgomery expression (high product from partial products)',
+                          'spec_gm_div_u64_pp_ok((%s).quot, (%s).rem, %s, (%s).m, (%s).sh2, (%s).d)' % (RV, RV, pn, pd, pd, pd))]
+            g.portable_pp = True
         g.harness = {'pre': ['%s a0;' % d['nct'], '%s a1;' % d['dct']], 'args': ['a0', 'a1']}
         g.extra_roots = []
         g.part = 'GM expression, all n, all field values'
@@ -1898,6 +1905,14 @@ def f_prefetch(c):
         k.loops = {1: '    __CPROVER_assigns(i)\n    __CPROVER_loop_invariant(i % increment == 0 && (i == 0 || i - increment < n))\n'
                       '    __CPROVER_decreases((i < n) ? (n - i) : 0)\n'.replace('(n', '(%s' % n).replace('< n', '< %s' % n)}
     k.harness = {'pre': ['%s p_in;' % c.P[0]['ctype'], 'size_t n_in = nondet_sz();'], 'args': ['p_in', 'n_in']}
+    # replay: the real function on null / misaligned-invalid / inaccessible-page pointers with the counterexample's count
+    k.prefetch = {'name': c.name, 'level': lvl, 'elem': {'int32_t*': 'std::int32_t', 'double*': 'double'}.get(c.P[0]['ctype']) if typed else None}
+    if c.fn.get('loops'):
+        # the loop contract above is written for the loop as it stands (for (i = 0; i < n; i += increment)).  If the loop
+        # is rewritten the clauses no longer apply (they do not even compile when the counter is renamed): BOUNDED stand-in,
+        # labelled as such -- counts up to 256 bytes, the loop unwound 12 times with unwinding assertions; a failure is
+        # reported only if the real code hangs or faults on it (replay)
+        k.bounded_fallback = {'requires': ['%s <= 256' % n], 'unwind': 12}
     return k
 
 
